@@ -294,3 +294,9 @@ PROPS["C19"].update(
     explanation=PROPS["C19"]["explanation"] + " Order independence of connects_nodes is additionally proved as a contract: "
                 "the answer is the symmetric 'one node on each side' formula over the (uninterpreted) side membership "
                 "predicates (E1).")
+
+PROPS["C15"].update(
+    modules=["contracts.update_tool"], technique=E1_TECHNIQUE,
+    explanation=PROPS["C15"]["explanation"] + " Two statement blocks of update()'s per-worker loop are additionally proved: the "
+                "parsing parameters force the state modes (ra / ff / fi) and name the current vm and worker whatever the command "
+                "line says, and a worker that cannot host the vm variant is skipped without ending the loop (E1).")
